@@ -198,3 +198,42 @@ func IDs(keys []*pk.Key) map[string]bool {
 	}
 	return m
 }
+
+// Reshape makes the bookkeeper list and the signature list unequal in length, the way a hostile
+// relayer can (the two lists carry independent length prefixes on the wire).
+//
+//	keepKeys / keepSigs >= 0: truncate the list to that many leading entries (-1: keep all)
+//	pad: signatures appended afterwards, each one of
+//	     "garbage" (64 random bytes), "repeat" (copy of the first signature, or garbage if none),
+//	     "foreign" (honest signature of an outside key), "empty" (zero-length entry)
+func Reshape(rng *rand.Rand, hash []byte, keys []keypair.PublicKey, sigs [][]byte, keepKeys, keepSigs int, pad []string) ([]keypair.PublicKey, [][]byte) {
+	if keepKeys >= 0 && keepKeys < len(keys) {
+		keys = keys[:keepKeys]
+	}
+	if keepSigs >= 0 && keepSigs < len(sigs) {
+		sigs = sigs[:keepSigs]
+	}
+	sigs = append([][]byte{}, sigs...)
+	for _, p := range pad {
+		switch p {
+		case "repeat":
+			if len(sigs) > 0 {
+				sigs = append(sigs, append([]byte{}, sigs[0]...))
+				continue
+			}
+			fallthrough
+		case "garbage":
+			g := make([]byte, 64)
+			rng.Read(g)
+			sigs = append(sigs, g)
+		case "foreign":
+			sigs = append(sigs, pk.NewKey(rng).Sign(hash))
+		case "empty":
+			sigs = append(sigs, []byte{})
+		}
+	}
+	return keys, sigs
+}
+
+// PadKinds are the padding kinds understood by Reshape.
+var PadKinds = []string{"garbage", "repeat", "foreign", "empty"}
